@@ -291,6 +291,9 @@ func init() {
 		if err := c09XmlStages(c); err != nil {
 			return err
 		}
+		if err := c09CssStages(c); err != nil {
+			return err
+		}
 		var pool [][]byte
 		for _, d := range docs {
 			if len(d.data) < 200000 {
@@ -400,8 +403,8 @@ func init() {
 			run(d, m, cfg, mutated)
 		}
 		for _, k := range h.Known("C09") {
-			if k.Status != "open" || (len(k.ID) > 6 && (k.ID[6] < '0' || k.ID[6] > '9')) { // K-C09-<Slice>-n entries are replayed by their slice
-				continue
+			if k.Status != "open" || len(strings.Split(k.ID, "-")) > 3 || k.ReplayStr("mediatype") == "" {
+				continue // K-C09-<slice>-n are replayed by their slice (c09_<slice>.go)
 			}
 			var o1, o2 bytes.Buffer
 			e1 := mDef.Minify(k.ReplayStr("mediatype"), &o1, strings.NewReader(k.ReplayStr("input")))
